@@ -326,6 +326,22 @@ func (m *Machine) builtin(th *Thread, fr *Frame, b *ssa.Builtin, args []Value, d
 				x.m.entries = nil
 			}
 			return nil
+		case SliceV:
+			if x.c == nil {
+				return nil
+			}
+			m.onAccess(x.c, true, m.curSite)
+			if x.c.kind == cBytes {
+				x.c.arr = copyArr(tt, x.c.arr, x.off, ArrZero{x.c.ew}, tt.BV(0, 64), x.len)
+				return nil
+			}
+			k := m.concretize(x.len)
+			off := m.concretize(x.off)
+			for i := uint64(0); i < k; i++ {
+				cell := x.c.elems[off+i]
+				m.storeCell(cell, nil, m.zeroValue(cell.typ))
+			}
+			return nil
 		}
 	case "ssa:wrapnilchk":
 		if p, ok := args[0].(Ptr); ok && p.c == nil {
